@@ -378,6 +378,38 @@ CONTRACTS.append(Contract(
            'stand-in components_constructors_and_implicit_timezone)']))
 
 
+# ---- Timezone.fromduration: the duration of the second argument of the adjust-to-timezone functions -------------------------------------------
+# accepted exactly when it is a whole number of minutes within +/-14:00 (F&O 9.6: FODT0003 otherwise), and then the offset is that many seconds
+from elementpath.datatypes.datetime import Timezone as _TZ, DayTimeDuration as _DTDur     # noqa: E402
+
+
+class _TDRec:       # ghost record of a datetime.timedelta(seconds=...) / of the Timezone built from it
+    pass
+
+
+def fromduration_case(S, ex):
+    dur = VObj(_DTDur, {'months': VInt(0), 'seconds': S.dec('seconds')}, name='duration')
+    ghost = VObj(_TDRec, {'built': VBool(False), 'offset_seconds': VInt(0)}, name='ghost')
+
+    def mk_timedelta(ex, node, a, kw):
+        return VObj(_TDRec, {'seconds': kw['seconds']}, name='td')
+
+    def mk_timezone(ex, node, a, kw):
+        ghost.fields.update({'built': VBool(True), 'offset_seconds': a[0].fields['seconds']})
+        return VObj(_TZ, {}, name='tz')
+    return Case([VNative(_TZ), dur], hooks={'datetime.timedelta': mk_timedelta, 'cls': mk_timezone}, names={'ghost': ghost})
+
+
+if 'out of the range' in (__import__('inspect').getsource(_TZ.fromduration)):
+    CONTRACTS.append(Contract(
+        'Timezone.fromduration', 'C11', lambda: _TZ.fromduration.__func__, fromduration_case,
+        pre=['-2 ** 63 <= exact(seconds) and exact(seconds) <= 2 ** 63'],      # the representation invariant of Duration (its constructor rejects anything else)
+        post=[('accepted_iff_whole_minutes_within_14_hours', "returned == (exact(seconds) == 60 * floor_(exact_div(exact(seconds), 60)) and -50400 <= exact(seconds) and exact(seconds) <= 50400)"),
+              ('offset_is_the_duration', "not returned or (ghost.built and ghost.offset_seconds == floor_(exact(seconds)))"),
+              ('rejection_is_a_ValueError', "returned or raised_name == 'ValueError'")],
+        native=lambda i: run(lambda sec: _TZ.fromduration(_DTDur(seconds=sec)), i['seconds']), expect_min_obligations=3))
+
+
 def _days_from_civil(y, m, d):
     """Days from 0001-01-01 (astronomical year numbering, year 0 exists)."""
     y -= m <= 2
